@@ -256,6 +256,8 @@ func (s *c06State) newKeys(base *c06State) (leases, index, tokens, aux []string)
 // verdict.
 var c06Stuck = map[*vCore]map[string]bool{}
 
+var c06SettleSoft, c06SettleHard int
+
 func c06Settle(v *vCore) (*c06State, int, string) {
 	soft := 0
 	for i := 0; i < 600; i++ {
@@ -277,7 +279,7 @@ func c06Settle(v *vCore) (*c06State, int, string) {
 				pendingTok = true
 			}
 		}
-		if !hard && (!pendingTok || soft >= 60) {
+		if !hard && (!pendingTok || soft >= 30) {
 			if pendingTok {
 				// a revocation-pending marker nobody is working on (its revocation failed): stop waiting for it
 				if c06Stuck[v] == nil {
@@ -293,6 +295,9 @@ func c06Settle(v *vCore) (*c06State, int, string) {
 		}
 		if !hard {
 			soft++
+			c06SettleSoft++
+		} else {
+			c06SettleHard++
 		}
 		time.Sleep(25 * time.Millisecond)
 	}
@@ -376,7 +381,18 @@ func c06Variants() []c06Variant {
 					v.Refused = caller == "lastuse"
 					v.Name = fmt.Sprintf("secret/%s/ns=%s/wrap=%v/upd=%v", caller, ns, wrap, upd)
 					// quick subset: every caller / namespace / wrap combination as a read, plus updates by a service token
-					v.Quick = !upd || (caller == "service" && !wrap)
+					switch caller {
+					case "service":
+						v.Quick = !upd || !wrap
+					case "batch-child":
+						v.Quick = !upd && (ns == "" || (ns == "ns1/" && wrap) || (ns == "cross" && !wrap))
+					case "batch-orphan":
+						v.Quick = !upd && ns == ""
+					case "limited":
+						v.Quick = !upd && ns == "" && !wrap
+					case "lastuse":
+						v.Quick = !upd && ((ns == "" && !wrap) || (ns == "ns1/" && wrap))
+					}
 					add(v)
 				}
 			}
@@ -390,7 +406,7 @@ func c06Variants() []c06Variant {
 				for _, alias := range []bool{false, true} {
 					v := c06Variant{Kind: "login", Caller: "none", TokType: tt, NS: ns, Wrap: wrap, Alias: alias}
 					v.Name = fmt.Sprintf("login/%s/ns=%s/wrap=%v/alias=%v", tt, ns, wrap, alias)
-					v.Quick = true
+					v.Quick = tt == "service" || ns == "" || (!wrap && !alias)
 					add(v)
 				}
 			}
@@ -413,7 +429,7 @@ func c06Variants() []c06Variant {
 					v.Caller = "root"
 				}
 				v.Name = fmt.Sprintf("create/%s/ns=%s/wrap=%v", cr, ns, wrap)
-				v.Quick = true
+				v.Quick = ns == "" || cr == "child" || (cr == "role" && !wrap) || (cr == "batch" && !wrap) || (cr == "orphan" && wrap)
 				add(v)
 			}
 		}
@@ -906,7 +922,7 @@ func c06Judge(r *kit.Result, c *c06Case, caseID string, resp *logical.Response, 
 	}
 
 	// ---- revoking the owning token must reach the secret's lease (the index entry is *its* index)
-	if c.bad == 0 && c.owner != "" {
+	if c.bad == 0 && c.owner != "" && vr.Caller != "lastuse" { // (a final-use token is being revoked by its own request)
 		var live []string
 		for _, s := range issued {
 			if !c06Has(revoked, s) {
@@ -1049,18 +1065,31 @@ func TestVerif_C06_Faults(t *testing.T) {
 	for round := 0; round < rounds; round++ {
 		for _, tx := range []bool{false, true} {
 			cache := round == 1 // thorough: one round with the physical cache on
-			v := c06Boot(t, tx, cache)
 			rng := kit.NewRand(seed, uint64(round*1000+shard*10)*2+map[bool]uint64{true: 1, false: 0}[tx])
-			c06Populate(t, v, rng)
-			for _, vr := range vars {
+			var v *vCore
+			for vi, vr := range vars {
+				if vi%8 == 0 {
+					// a fresh core now and then keeps the store (and the scans) small
+					if v != nil {
+						v.Close()
+						delete(c06Stuck, v)
+					}
+					v = c06Boot(t, tx, cache)
+					c06Populate(t, v, rng)
+				}
 				c06FaultVariant(t, v, r, rng, vr, tx, round)
 				if c06Unclassified(r) > 40 {
 					return
 				}
 			}
-			v.Close()
+			if v != nil {
+				v.Close()
+				delete(c06Stuck, v)
+			}
 		}
 	}
+	r.Count("settle_waits_soft_25ms", c06SettleSoft)
+	r.Count("settle_waits_hard_25ms", c06SettleHard)
 	r.Require("faults_fired", 300)
 	r.Require("fault_after_effect", 60)
 	r.Require("secret_rolled_back", 10)
